@@ -46,6 +46,17 @@ theorem foldInsert_get_congr [Add K] [Mul K] (fs : List (Fld K)) (out out' : Arr
     exact ih _ _ (by rw [insertArr_s0, insertArr_s0, h0]) (by rw [insertArr_s1, insertArr_s1, h1])
       (insertArr_get_congr f out out' w i j h0 h1 h)
 
+theorem inRegion_iff (r : (Int × Int) × (Int × Int)) (i j : Int) :
+    inRegion r i j = true ↔ r.1.1 ≤ i ∧ i < r.1.2 ∧ r.2.1 ≤ j ∧ j < r.2.2 := by
+  unfold inRegion; simp only [Bool.and_eq_true, decide_eq_true_eq]; omega
+
+/-- inside the `S0 x S1` grid the zeroed scratch view reads zero (the zeroed region — generated — covers the grid) -/
+theorem zeroedCorner_get [Zero K] (scr : Arr K) (S0 S1 i j : Int) (hi : 0 ≤ i ∧ i < S0) (hj : 0 ≤ j ∧ j < S1) :
+    (zeroedCorner scr S0 S1).get i j = 0 := by
+  have h : inRegion (Gen.scratchZero S0 S1) i j = true := by
+    rw [inRegion_iff]; simp only [Gen.scratchZero]; omega
+  simp only [zeroedCorner, h, if_true]
+
 theorem emod_range (x n : Int) (hn : 0 < n) : 0 ≤ x % n ∧ x % n < n :=
   ⟨Int.emod_nonneg x (by omega), Int.emod_lt_of_pos x hn⟩
 
